@@ -350,7 +350,14 @@ fn py_expr(rng: &mut Rng, depth: usize) -> String {
 fn py_block(rng: &mut Rng, ind: usize, depth: usize, out: &mut String, n: usize) {
     let pad = "    ".repeat(ind);
     for _ in 0..n {
-        match rng.below(if depth >= 2 { 5 } else { 9 }) {
+        // comments are EXTRA nodes of the grammar (named children wherever they stand); blank lines move rows
+        if rng.chance(12) { out.push_str(&format!("{}# {}\n", pad, rng.pick(&["note", "héllo wörld", "TODO: x = 1", ""]))); }
+        if ind == 0 && rng.chance(6) { out.push('\n'); }
+        match rng.below(if depth >= 2 { 5 } else { 13 }) {
+            9 => { out.push_str(&format!("{}while {}:\n", pad, py_expr(rng, 1))); let k = 1 + rng.below(2); py_block(rng, ind + 1, depth + 1, out, k); }
+            10 => { out.push_str(&format!("{}with {} as {}:\n", pad, py_expr(rng, 1), rng.pick(IDENTS))); let k = 1 + rng.below(2); py_block(rng, ind + 1, depth + 1, out, k); }
+            11 => { out.push_str(&format!("{}try:\n", pad)); py_block(rng, ind + 1, depth + 1, out, 1); out.push_str(&format!("{}except {}:\n", pad, rng.pick(&["E", "KeyError"]))); py_block(rng, ind + 1, depth + 1, out, 1); }
+            12 => out.push_str(&format!("{}{} = lambda {}: {}  # trailing\n", pad, rng.pick(IDENTS), rng.pick(&["a", "a, b"]), py_expr(rng, 1))),
             0 | 1 => out.push_str(&format!("{}{} = {}\n", pad, rng.pick(IDENTS), py_expr(rng, 0))),
             2 => out.push_str(&format!("{}{}\n", pad, py_expr(rng, 0))),
             3 => out.push_str(&format!("{}pass\n", pad)),
